@@ -3700,7 +3700,8 @@ def splitValue(value, delim):
     else:
         parts = re.split(delim, value)
         for part in parts:
-            result.addItem(ValueString(part))
+            # (a capture group that took no part in the match yields None)
+            result.addItem(ValueString(part if part is not None else ""))
     return result
 
 
